@@ -7,6 +7,7 @@
   and EVERY cut point k in the stated region.
 -/
 import YaraModel.Lemmas.ArenaExample
+import YaraModel.Lemmas.ArenaRoundTrip
 namespace YaraModel.Arena
 open YaraModel.Gen.ArenaLayout
 
@@ -113,6 +114,36 @@ theorem applyRelocs_partial (cfg : LoaderCfg) (a : Arena) (tail : Bytes) (ht : t
   | [_, _, _, _, _, _], _, _ => rfl
   | [_, _, _, _, _, _, _], _, _ => rfl
   | _ :: _ :: _ :: _ :: _ :: _ :: _ :: _ :: _, h, _ => simp at h; omega
+
+/-- **Every cut at a relocation-entry boundary is accepted (known finding F9, general form).**
+    For every well-formed arena, every loader configuration (with or without the hardening) and every
+    k ≤ number of entries, the image cut after its k-th relocation entry loads successfully; the arena
+    returned has only the first k entries registered — the slots of all later entries keep their
+    on-disk (buffer, offset) references where the scanner expects pointers. -/
+theorem reloc_cut_accepted (cfg : LoaderCfg) {a : Arena} (h : WF a) (hs2 : ∀ b ∈ a.bufs, b.data.length ≤ 2 ^ 31)
+    (alloc : Nat → Nat) (hA : RangesOk (loadedBufs alloc 0 (bodies (toRefs a)))) (hnz : ∀ i, alloc i ≠ 0) (k : Nat) :
+    ∃ a', load cfg alloc ((save a).take (bodiesEnd a + 8 * k)) = .ok a' ∧ a'.relocs = a.relocs.take k := by
+  have ⟨h1, _⟩ := load_save_core cfg h hs2 alloc hA hnz
+  refine ⟨loadedWith alloc a (a.relocs.take k), ?_, by simp [loadedWith]⟩
+  have himg : (save a).take (bodiesEnd a + 8 * k) = imageWith a (a.relocs.take k) := by
+    rw [save_split]
+    unfold imageWith bodiesEnd bodiesStart
+    have hlen : ((bodies a).map (·.length)).length = a.bufs.length := by simp [bodies]
+    have htl := length_table (headerSize + tableEntrySize * a.bufs.length) ((bodies a).map (·.length))
+    rw [hlen] at htl
+    have hfl : ((bodies (toRefs a)).flatten).length = ((bodies a).map (·.length)).sum := by
+      rw [List.length_flatten, bodies_toRefs_lengths]
+    rw [take_header_append _ _ (by omega)]
+    congr 1
+    rw [List.take_append, htl, List.take_of_length_le (by rw [htl]; omega)]
+    congr 1
+    rw [List.take_append, hfl, List.take_of_length_le (by rw [hfl]; omega)]
+    congr 1
+    rw [← take_relocBytes]
+    congr 1
+    omega
+  rw [himg]
+  exact h1 _ (List.Pairwise.sublist (List.take_sublist k a.relocs) h.slots.1) (fun r hr => List.mem_of_mem_take hr)
 
 /-- what the loader returns for the example image cut after its first relocation entry (byte 72 of 80) -/
 def exLoaded : Arena :=
